@@ -216,6 +216,7 @@ var stemVariants = [][2][]funit.Int16{
 	{{-10, 0, 500, 520}, nil},
 	{nil, {50, 130}},
 	{{0, 20}, {-32768, 32767, 100, 90}},
+	{{0, 20, 340, 360, 0, 20, 680, 700}, {10, 40, 10, 40}}, // the same stem pair more than once
 }
 
 var glyphNameSets = [][]string{{"A"}, {".notdef", "A"}, {".notdef", "A", "B"}, {".notdef", "A", "B", "C"}}
@@ -256,7 +257,7 @@ func shapeFamily(nGlyphs int, outs []int, dom Domain) Family {
 	return Family{
 		Name: fmt.Sprintf("shapes-%d-glyphs", nGlyphs),
 		N:    n,
-		Rule: fmt.Sprintf("glyph names %v, each glyph one of %d outlines %v, x 4 stem variants (none, h, v, both incl. the int16 extremes and a negative width) x %d width variants (all 600; per-glyph 0/1132/-50; vertical advance -1000 on the first glyph%s)",
+		Rule: fmt.Sprintf("glyph names %v, each glyph one of %d outlines %v, x 5 stem variants (none, h, v, both incl. the int16 extremes and a negative width, repeated stem pairs) x %d width variants (all 600; per-glyph 0/1132/-50; vertical advance -1000 on the first glyph%s)",
 			names, nOut, outNames, nW, map[bool]string{true: "; fractional 500.5/-0.5/107.49", false: ""}[dom == DomainC08]),
 		Build: func(i int) *type1.Font {
 			sizes := make([]int, 0, nGlyphs+2)
@@ -717,6 +718,38 @@ func curveFormsFamily() Family {
 	}
 }
 
+// big fonts ---------------------------------------------------------------------
+
+// bigFontFamily: fonts whose encrypted portion exceeds 64 KiB (PFB segment
+// lengths above 16 bits, many eexec buffer flushes, long hex sections).
+func bigFontFamily() Family {
+	return Family{
+		Name: "big-fonts",
+		N:    2,
+		Rule: "fonts whose encrypted portion exceeds 64 KiB: 130 glyphs with 200-segment outlines; 1700 glyphs with a 3-segment outline",
+		Build: func(i int) *type1.Font {
+			f := Base()
+			f.Glyphs = map[string]*type1.Glyph{".notdef": {WidthX: 250}}
+			f.Encoding = nil
+			if i == 0 {
+				for k := 0; k < 130; k++ {
+					f.Glyphs[fmt.Sprintf("g%03d", k)] = &type1.Glyph{WidthX: float64(400 + k), Cmds: PathOfLength(200, k%4)}
+				}
+			} else {
+				for k := 0; k < 1700; k++ {
+					g := &type1.Glyph{WidthX: float64(300 + k%700)}
+					g.MoveTo(float64(k%50), 0)
+					g.LineTo(float64(100+k%30), float64(k%200))
+					g.LineTo(0, 700)
+					g.ClosePath()
+					f.Glyphs[fmt.Sprintf("g%04d", k)] = g
+				}
+			}
+			return f
+		},
+	}
+}
+
 // Families returns the font families of a tier for a domain.
 func Families(tier string, dom Domain) []Family {
 	nOut := NumOutlines
@@ -746,6 +779,7 @@ func Families(tier string, dom Domain) []Family {
 		dateFamily(),
 		manyGlyphsFamily(),
 		curveFormsFamily(),
+		bigFontFamily(),
 	}
 	if tier == "thorough" {
 		fams[3] = pathLengthFamily(120)
